@@ -423,6 +423,11 @@ impl Check for C11 {
             Op::Stroke(PathSpec::new(vec![POp::M(1., 1.), POp::Q(7., 1., 7., 6.)]), StyleSpec { width: 2.0, cap: 2, join: 0, miter: 4., dash: vec![1., 1.], offset: 0. }, white.clone(), Opts::default()),
             Op::DrawImageAt(1., 1., 3, 2, img.clone(), Opts::default()),
             Op::DrawImageSize(6., 5., 1., 1., 3, 2, img.clone(), Opts { mode: BlendMode::Src, alpha: 1.0, aa: true }),
+            // mask() is a drawing call too: where it lands ignores T, but its source lives in user space
+            // and has no position there under a non-invertible T - the statement's "a non-invertible T
+            // draws nothing" is taken literally (it is also what the library does)
+            Op::Mask(1, 2, 3, 2, vec![255, 128, 64, 0, 1, 200], white.clone()),
+            Op::Mask(-1, 6, 4, 3, vec![255, 128, 64, 0, 1, 200, 90, 91, 92, 93, 94, 95], SrcSpec::Linear { stops: ramp.clone(), spread: Spr::Pad, p: [0., 0., 8., 8.] }),
         ];
         let ctxs: Vec<(Vec<Op>, Vec<Op>)> = vec![
             (vec![], vec![]),
@@ -460,8 +465,7 @@ impl Check for C11 {
         run.bound("device-space", format!("{} device-space call groups x 10 transforms: same pixels as under the identity", dev.len()));
         run.par(dev.len(), |di, l| {
             for xf in XFS.iter().skip(1) {
-                // mask() under a singular T: "mask ignores T" and "a non-invertible T draws nothing"
-                // contradict each other there, so neither outcome is demanded
+                // mask() under a singular T is decided by clause (iv): it draws nothing
                 if matches!(dev[di][0], Op::Mask(..)) && xf_to(xf).determinant() == 0.0 {
                     continue;
                 }
